@@ -1013,11 +1013,7 @@ pub fn contract(env: &Env, name: &str, is_test: bool, recv: &V, args: &[Option<V
                 return fail(sig, format!("expected a number, got {}", out.show()));
             };
             let bad = |why: String| -> Verdict {
-                if std::env::var("C17_DEBUG_SIG").is_ok() {
-                    // debugging aid: one signature per failing input, so that the kernel keeps them all
-                    return fail(&format!("contract:round:debug:{}:{method}:{p}", recv.describe()), why);
-                }
-                if overflow_class || !vf.is_finite() && p != 0 {
+                if overflow_class {
                     fail("contract:round:not-exact:overflow", why)
                 } else {
                     fail("contract:round:not-exact", why)
@@ -1027,7 +1023,9 @@ pub fn contract(env: &Env, name: &str, is_test: bool, recv: &V, args: &[Option<V
                 return if got.is_nan() { Pass } else { bad(format!("expected NaN, got {o}")) };
             }
             if vf.is_infinite() {
-                return if got == vf { Pass } else { bad(format!("rounding {vf:?} must give {vf:?}, got {o}")) };
+                // at precision 0 nothing is scaled: inf stays inf. With a scale the docs say nothing about
+                // infinities (inf * 0 is NaN): the same infinity or NaN, never a finite number
+                return if got == vf || (p != 0 && got.is_nan()) { Pass } else { bad(format!("rounding {vf:?} must give {vf:?}, got {o}")) };
             }
             let req = match n {
                 Num::Int(..) => format!("i {} {method} {p}", int_text(&n)),
